@@ -921,6 +921,8 @@ class Gen:
                 ext = rng.choice([".bin", ".raw", ".wav", ".BIN", "", ".dat", ".WAV"])
                 sub = rng.choice(["", "", "", "build/", "../", "nodir/"])
                 path_arg = sub + stem + ext
+                if not os.path.normpath(os.path.join(os.path.dirname(gf.path), path_arg)).startswith(SIMROOT + "/"):
+                    path_arg = stem + ext       # never name a path outside the simulated root
                 if rng.random() < 0.1:
                     path_arg = os.path.normpath(os.path.join(os.path.dirname(gf.path), path_arg))
             text = kind
